@@ -364,7 +364,20 @@ func (g *generator) requireVisible(name, importPath string) {
 		g.fset.Position(g.usePos), name, g.fset.Position(obj.Pos()), importPath, name)
 }
 
-// hiddenPackages reports the errors noted by requireVisible, in a stable order.
+// requireNameable notes an error for each type within t that the code
+// generated for the directive cannot refer to by name. See unnameableTypes.
+func (g *generator) requireNameable(t types.Type) {
+	errs := unnameableTypes(t, g.pkg, g.usePos, false /* packageScope */, g.fset)
+	if len(errs) > 0 && g.hidden == nil {
+		g.hidden = make(map[string]error)
+	}
+	for name, err := range errs {
+		g.hidden["type "+name] = err
+	}
+}
+
+// hiddenPackages reports the errors noted by requireVisible and
+// requireNameable, in a stable order.
 func (g *generator) hiddenPackages() error {
 	names := make([]string, 0, len(g.hidden))
 	for name := range g.hidden {
@@ -389,6 +402,7 @@ func (g *generator) printMagic() string {
 // type refers to a package that is not already imported
 func (g *generator) typePrinter(f *file, addImports map[string]string, aliases map[string]struct{}) func(types.Type) string {
 	return func(t types.Type) string {
+		g.requireNameable(t)
 		return types.TypeString(t, func(pkg *types.Package) string {
 			for _, imp := range f.AST.Imports {
 				ip, _ := strconv.Unquote(imp.Path.Value)
